@@ -912,7 +912,7 @@ class Gaussian(Funsor, metaclass=GaussianMeta):
             new_ints = OrderedDict()
             kept_perm = []
             reduced_perm = []
-            for i, (k, v) in enumerate(self.inputs.items()):
+            for k, v in self.inputs.items():
                 if k not in reduced_vars:
                     inputs[k] = v
                 if v.dtype == "real":
@@ -921,6 +921,7 @@ class Gaussian(Funsor, metaclass=GaussianMeta):
                             f"Cannot sum along a real dimension: {repr(v)}"
                         )
                 else:
+                    i = len(old_ints)  # position among the batch dims
                     old_ints[k] = v
                     if k in reduced_vars:
                         reduced_perm.append(i)
